@@ -172,6 +172,27 @@ fn run_case(case: &Value) -> Value {
                 oracles.push(Value::Null);
                 res_name(&block(conn.flush()).expect("flush pending"))
             }
+            // the chain entry point shares the queue: starting a chain enqueues its first call
+            // ("cenq": the chain is then abandoned; "csend": it is sent, i.e. enqueue + flush)
+            "cenq" | "csend" => {
+                let m = mk_msg(&a[1]);
+                oracles.push(oracle(&m));
+                let Msg::Call(c) = &m else { panic!("chain ops take calls") };
+                match conn.chain_call::<Method, serde_json::Value, RE>(c) {
+                    Err(e) => err_name(&e),
+                    Ok(chain) if kind == "cenq" => {
+                        drop(chain);
+                        "ok".into()
+                    }
+                    Ok(chain) => match block(chain.send()).expect("chain send pending") {
+                        Ok(stream) => {
+                            drop(stream);
+                            "ok".into()
+                        }
+                        Err(e) => err_name(&e),
+                    },
+                }
+            }
             "enq" | "send" => {
                 let m = mk_msg(&a[1]);
                 oracles.push(oracle(&m));
